@@ -44,6 +44,7 @@ ClausesOf ==
             "C11_MulticastFormat", "C11_QuRouting"},
    C12 |-> {"C12_NoEarlyOrUnsolicited", "C12_AnsweredAtOnce", "C12_By500", "C12_ProtectedBy1200", "C12_NoDuplicateInBatch"},
    C08 |-> {"C08_GoodbyeComplete", "C08_NoResurrection", "C08_AnnouncementComplete"},
+   C17 |-> {"C17_Quiet", "C17_GoodbyesBeforeClose", "C17_Idempotent", "C17_NoTimerRaises"},
    C09 |-> {"C09_ProbeSchedule", "C09_ProbeShape", "C09_ConflictDetected", "C09_Rename", "C09_SpuriousFailure", "C09_WrongException",
             "C09_NeverTwice", "C09_NeverAnnounced", "C09_AnnouncedBeforeProbing", "C09_AnnouncementComplete"}]
 Own(clause) == \/ D.own = "ALL" \/ clause \in {"Trace_Malformed", "C15_NoException"} \/ clause \in ClausesOf[D.own]
@@ -54,12 +55,12 @@ NoSvc == [sid |-> -1]
 NoExp == [on |-> FALSE, u |-> {}, uopt |-> {}, dst |-> 0, port |-> 0, sock |-> 0, id |-> 0, qs |-> <<>>, legacy |-> FALSE, done |-> FALSE, t |-> -1]
 
 (* registration in progress (RFC 6762 8.1): candidate k of cands is being probed since instant r, i probes seen *)
-NoProbe == [on |-> FALSE, cands |-> <<>>, k |-> 1, r |-> 0, i |-> 0, rename |-> FALSE, exact |-> {}, fail |-> FALSE]
+NoProbe == [on |-> FALSE, sid |-> -1, cands |-> <<>>, k |-> 1, r |-> 0, i |-> 0, rename |-> FALSE, exact |-> {}, fail |-> FALSE]
 
 InitState ==
   [reg |-> [k \in 0..7 |-> NoSvc], seen |-> <<>>, lastDid |-> 0, lastProc |-> -100000, lastQU |-> FALSE,
    obl |-> {}, qn |-> 0, slots |-> {}, gone |-> {}, exp |-> NoExp, hold |-> {}, inRecv |-> FALSE,
-   lastTcSrc |-> 0, pr |-> NoProbe, pendReg |-> NoSvc, rejected |-> {}, again |-> <<>>, err |-> ""]
+   lastTcSrc |-> 0, closed |-> FALSE, closing |-> FALSE, pr |-> NoProbe, pendReg |-> NoSvc, rejected |-> {}, again |-> <<>>, err |-> ""]
 
 (* ------------------------------------------------------------------ registry *)
 Sids(st) == {k \in 0..7 : st.reg[k] # NoSvc}
@@ -244,7 +245,12 @@ AddService(st, v, t, kind) ==
              !.rejected = @ \ SvcRecs(v)]
 
 OnApiRet(st, e) ==
-  IF e.op # "reg" THEN st
+  IF e.op = "close"
+  THEN IF Bad(~e.ok, "C17_Idempotent") THEN Fail(st, "C17_Idempotent")
+       ELSE IF Bad(\E x \in st.slots : x.kind = "bye" /\ ~x.used, "C17_GoodbyesBeforeClose") THEN Fail(st, "C17_GoodbyesBeforeClose")
+       ELSE [st EXCEPT !.closed = TRUE, !.closing = FALSE, !.obl = {}, !.slots = {}, !.exp = NoExp]
+  ELSE IF st.closed \/ st.closing THEN st           \* a registration that was in flight when the instance closed: not judged
+  ELSE IF e.op # "reg" THEN st
   ELSE IF st.again # <<>>
   THEN LET st1 == [st EXCEPT !.again = <<>>]
            held == \E k \in Sids(st) : st.reg[k].name = e.final
@@ -253,7 +259,7 @@ OnApiRet(st, e) ==
           ELSE IF \E k \in 1..Len(st.again) : st.again[k].name = e.final
                THEN AddService(st1, [(st.again[CHOOSE k \in 1..Len(st.again) : st.again[k].name = e.final]) EXCEPT !.sid = e.sid], e.t, "ann")
                ELSE IF Bad(TRUE, "C09_Rename") THEN Fail(st, "C09_Rename") ELSE st1
-  ELSE IF st.pr.on
+  ELSE IF st.pr.on /\ e.sid = st.pr.sid
   THEN LET st1 == [st EXCEPT !.pr = NoProbe] IN
        IF e.ok
        THEN IF Bad(st.pr.fail \/ st.pr.i # 3, "C09_ConflictDetected") THEN Fail(st, "C09_ConflictDetected")
@@ -276,7 +282,7 @@ OnApi(st, e) ==
   CASE e.op = "reg" ->
          IF e.again THEN [st EXCEPT !.again = e.cands]      \* a name this instance may already hold: only the outcome is judged
          ELSE IF e.coop THEN [st EXCEPT !.pendReg = e.svc]
-         ELSE Settle([st EXCEPT !.pr = [on |-> TRUE, cands |-> e.cands, k |-> 1, r |-> e.t, i |-> 0, rename |-> e.rename,
+         ELSE Settle([st EXCEPT !.pr = [on |-> TRUE, sid |-> e.svc.sid, cands |-> e.cands, k |-> 1, r |-> e.t, i |-> 0, rename |-> e.rename,
                                         exact |-> ToSet(e.exact), fail |-> FALSE]], e.t)
     [] e.op = "upd" ->
          LET v == e.svc
@@ -295,8 +301,10 @@ OnApi(st, e) ==
                         !.obl = {[o EXCEPT !.st = IF o.st = "open" /\ o.r \notin Owned(st1) THEN "cov" ELSE o.st] : o \in @}]
     [] e.op = "close" ->
          LET all == UNION {Broadcast(st.reg[k], TRUE) : k \in Sids(st)}
-             st1 == [st EXCEPT !.reg = [k \in 0..7 |-> NoSvc]]
-         IN IF all = {} THEN st1
+             \* whatever was in progress is abandoned: registration, announcements, held truncated queries
+             st1 == [st EXCEPT !.reg = [k \in 0..7 |-> NoSvc], !.pr = NoProbe, !.again = <<>>, !.pendReg = NoSvc, !.hold = {},
+                               !.slots = {x \in @ : x.used}, !.closing = TRUE]
+         IN IF all = {} THEN [st1 EXCEPT !.obl = {}]
             ELSE [st1 EXCEPT !.slots = @ \cup {[t |-> e.t + d, kind |-> "bye", set |-> all, used |-> FALSE] : d \in {0, 125, 250}},
                              !.gone = @ \cup {<<p[1], e.t + 250>> : p \in all},
                              !.obl = {[o EXCEPT !.st = IF o.st = "open" THEN "cov" ELSE o.st] : o \in @}]
@@ -415,8 +423,16 @@ OnSend(st, e) ==
 MissedSlot(st, t) == \E x \in st.slots : ~x.used /\ x.t < t
 MissedKind(st, t) == (CHOOSE x \in st.slots : ~x.used /\ x.t < t).kind
 
+AfterClose(st, e) ==
+  CASE e.ev \in {"send", "cb", "lcall"} -> IF Bad(TRUE, "C17_Quiet") THEN Fail(st, "C17_Quiet") ELSE st
+    [] e.ev = "exc" -> IF Bad(TRUE, "C17_NoTimerRaises") THEN Fail(st, "C17_NoTimerRaises") ELSE Fail(st, "C15_NoException")
+    [] e.ev = "recv" -> IF Bad(TRUE, "C17_Quiet") THEN Fail(st, "C17_Quiet") ELSE st     \* a closed transport was handed a datagram
+    [] e.ev = "api_ret" -> IF e.op = "close" /\ Bad(~e.ok, "C17_Idempotent") THEN Fail(st, "C17_Idempotent") ELSE st
+    [] OTHER -> st
+
 Step(st0, e, alt) ==
   IF e.ev = "start" THEN [InitState EXCEPT !.seen = [i \in Rids |-> None]]
+  ELSE IF st0.closed THEN AfterClose(st0, e)
   ELSE LET st1 == Pre(st0, e, alt) IN
    IF st1.err # "" THEN st1
    ELSE IF MissedSlot(st1, e.t) /\ Bad(MissedKind(st1, e.t) = "bye", "C08_GoodbyeComplete") THEN Fail(st1, "C08_GoodbyeComplete")
@@ -430,6 +446,9 @@ Step(st0, e, alt) ==
           [] e.ev = "api_ret"   -> OnApiRet(st1, e)
           [] e.ev = "rand"      -> OnRand(st1, e)
           [] e.ev = "end"       -> st1
+          [] e.ev \in {"cb", "lcall", "bstart", "lookup", "lookup_ret"} -> st1
+          [] e.ev = "tclose"    -> IF Bad(\E x \in st1.slots : x.kind = "bye" /\ ~x.used, "C17_GoodbyesBeforeClose")
+                                   THEN Fail(st1, "C17_GoodbyesBeforeClose") ELSE st1
           [] e.ev = "exc"       -> Fail(st1, "C15_NoException")
           [] OTHER              -> Fail(st1, "Trace_Malformed")
 
